@@ -56,3 +56,13 @@ Theorem C04_source_payload_prefixes_are_the_models :
   (N.of_nat (u32s_width T_CREATE), N.of_nat (u32s_width T_MEASURE), N.of_nat (u32s_width T_UPDATE), N.of_nat (u32s_width T_READY)).
 Proof. exact prefix_widths_tie. Qed.
 Print Assumptions C04_source_payload_prefixes_are_the_models.
+
+(* translator obligations (lib/gen_statespace.py reads the structs, statics and mutable bindings of the
+   modelled code on every run): the code has the state the model represents and no other *)
+From Portus Require Import StateTie.
+From PortusGen Require Import StateSpace.
+From Coq Require Import String.
+Open Scope string_scope.
+Theorem C04_source_shared_state_serialize : nth 10 impl_shared_state_tokens "" = "src/serialize/mod.rs: unsafe".
+Proof. exact shared_state_serialize_mod. Qed.
+Print Assumptions C04_source_shared_state_serialize.
